@@ -207,6 +207,17 @@ func checkC19(c *Ctx) {
 			panic(p)
 		}
 	}()
+	// ---- match inside a program: subject sources of every kind x bodies that are code (MC_MatchEnv)
+	envDone := make(chan any, 1)
+	go func() {
+		defer func() { envDone <- recover() }()
+		c19Env(c, pool)
+	}()
+	defer func() {
+		if p := <-envDone; p != nil {
+			panic(p)
+		}
+	}()
 
 	// ---- premise: `==` on the scalars of the model, on the real code
 	type pair struct{ v, lit string }
